@@ -257,11 +257,11 @@ def apply_mut(h, m):
             call = lambda: h[live[n]].metadata.__setitem__(key, copy.deepcopy(v))
     elif k == "insert":
         _, rootspec, src, parent = m
-        if parent in live:
+        if parent is None or parent in live:      # parent None: insert_hugr's documented default, below the root
             b = Hugr(mk_mut_op(rootspec))
             src_applied, _ = run_muts(b, [x for x in src if x[0] in SRC_KINDS])
             m = ["insert", rootspec, src_applied, parent]
-            call = lambda: h.insert_hugr(b, live[parent])
+            call = (lambda: h.insert_hugr(b)) if parent is None else (lambda: h.insert_hugr(b, live[parent]))
     else:
         raise ValueError(m)
     if call is None:
@@ -325,6 +325,8 @@ def gen_muts(rng, h, n, off_port=False, reuse=False, palette=None, inserts=False
             src, _ = gen_muts(rng, Hugr(mk_mut_op(rootspec)), rng.randint(1, 8), palette=palette, src_only=True)
             containers = [x for x in nodes if h.children(x) or x == h.root]
             m = ["insert", rootspec, src, rng.choice(containers if containers and rng.random() < 0.7 else nodes).idx]
+            if m[3] == h.root.idx and len(src) % 2 == 0:
+                m[3] = None             # the same insertion through insert_hugr's default parent (no extra random draw)
         elif r < 0.3:
             if deleted and not reuse:
                 continue
@@ -697,6 +699,7 @@ class Lit:
         of an inserted HUGR are added in index order, not yet inserted ancestors first.
         -> (commands, outcomes, final tracking state)"""
         sh = {"nodes": {i: [dict(v[0]), v[1]] for i, v in start.items()}, "free": [], "size": (max(start) + 1) if start else 0}
+        host_root = next((i for i, v in start.items() if v[1] is None), 0)
         A, L, O, DN, DL = ("BAdd", "BLink", "BOrd", "BDelN", "BDelL") if basic else ("HAdd", "HLink", "HOrd", "HDelN", "HDelL")
         out = []
         for m, r in zip(applied, rets):
@@ -726,7 +729,9 @@ class Lit:
             elif k == "insert":
                 _, rootspec, src, parent = m
                 bc, _, bsh = self.cmds({0: [{}, None]}, src, ["ok"] * len(src), basic=True)
-                out.append("(HIns %s %s (Some %d))" % (self.spec_opinfo(rootspec), bc, parent))
+                out.append("(HIns %s %s %s)" % (self.spec_opinfo(rootspec), bc, "None" if parent is None else "(Some %d)" % parent))
+                if parent is None:                  # the default parent is the root of the host
+                    parent = host_root
                 if r == "ok":
                     mapping = {}
                     for n in sorted(bsh["nodes"]):
